@@ -343,11 +343,54 @@ def gen_extraction_programs(r, n):
     return progs
 
 
+def gen_missing_content_programs():
+    """C18 (fixed family): 'missing content yields an I/O error' for EVERY extraction entry point and API, onto a fresh
+    destination and onto an existing file: the content is removed by address, then each extraction must answer an error,
+    create nothing at the fresh destination and leave the existing file as it was."""
+    progs = []
+    i = 0
+    for name in EXTRACT_BY_KEY + EXTRACT_BY_HASH:
+        by_hash = name in EXTRACT_BY_HASH
+        for fl in ("s",) if name in SYNC_ONLY else ("s", "a"):
+            algo = L.ALGOS[i % len(L.ALGOS)]
+            d = b"content that goes missing %d " % i * 7
+            d2 = b"the other entry %d" % i
+            k, k2 = b"mc%d" % i, b"md%d" % i
+            old = b"the callers old file"
+            st = sri_tok(algo, d)
+            ops = [w_oneshot("s", algo, k, d), w_oneshot("a", algo, k2, d2), f"put out/y {hx(old)}", f"remove_hash {fl} c0 {st}"]
+            steps = []
+            for dest in ("out/x", "out/y"):
+                ops.append(f"{name} {fl} c0 {st if by_hash else hx(k)} {dest}")
+                steps.append((len(ops) - 1, name, dest, True))
+                ops.append(f"cat {dest}")
+            ops.append(f"read s c0 {hx(k)}"); rd = len(ops) - 1
+            ops.append(f"read a c0 {hx(k2)}")
+            ops.append("dump c0/content-v2")
+            ops.append("dump out")
+            progs.append(Program(f"missing-content-{name}-{fl}", ops,
+                                 tags={"data": d, "data2": d2, "steps": steps, "gone": True, "read": rd, "siblings": False,
+                                       "pre": {"out/x": None, "out/y": old}, "both_binaries": i % 4 == 0,
+                                       "variety": ("missing-content", name, fl)}))
+            i += 1
+    return progs
+
+
 def mon_extraction(rr):
     out = []
     t = rr.prog.tags
     d = t["data"]
     n = len(rr.impl)
+    for ei, name, dest, gone in t["steps"]:
+        # a refused extraction of missing content leaves the destination as it was
+        if gone and "pre" in t and ei + 1 < n and toks(rr.impl[ei])[0] != "ok":
+            cat = toks(rr.impl[ei + 1]); was = t["pre"].get(dest)
+            now = unhx(cat[1]) if cat[0] == "ok" and len(cat) > 1 else (b"" if cat[0] == "ok" else None)
+            if now != was:
+                out.append(Failure("refused_extraction_touched_destination", ei + 1,
+                                   f"{name} of missing content answered an error but {dest} is now "
+                                   f"{'absent' if now is None else '%d bytes' % len(now)} (was {'absent' if was is None else '%d bytes' % len(was)})",
+                                   sig={"op": name, "api": rr.prog.ops[ei].split(" ")[1], "dest": dest.split("/")[1]}))
     for ei, name, dest, gone in t["steps"]:
         if ei + 1 >= n:
             break
